@@ -639,6 +639,7 @@ def rule_exported_locked(ctx, rep, pid):
 META["explanation"] += " " + 'Also (fifth reading): return case table of dequeue (NULL iff the emptiness test held, WOULDBLOCK iff a successor wait reported it in non-blocking mode, a node otherwise).'
 
 RULES = [
+    ("C10.proto", lambda c, r: __import__("sa.attrs", fromlist=["x"]).rule_nopure(c, r, "C10.proto", '^_*cds_(wfcq|wfq)_', "wfcqueue / wfqueue", 15)),   # compiler-visible contract of the public prototypes: pure / const would let an optimised caller poll once
     ("C10.nodeinit", rule_nodeinit),
     ("C10.append", rule_append),
     ("C10.empty", rule_empty),
